@@ -128,6 +128,20 @@ theorem hexa_form_minus (n : Int) (h : n < 0) (hm : n ≠ Hexa32.minInt64) :
 /-- −2^63 ↦ the special text -/
 theorem hexa_form_min : Hexa32.toString32 Hexa32.minInt64 = "z8000000000000".toList := by decide +kernel
 
+/-- **canonical form** (the encoding is the stated function, not just an invertible one): after the prefix the
+    text is exactly the radix-32 numeral of the magnitude (`Hexa32.refDigits`, positional notation written
+    independently of the Go loop): every digit in `0-9a-v`, no leading zero (hence minimal length) -/
+theorem hexa_canonical (n : Int) (h : i64 n) :
+    (10 ≤ n → Hexa32.toString32 n = 'x' :: Hexa32.refDigits n.toNat)
+    ∧ (n < 0 → n ≠ Hexa32.minInt64 → Hexa32.toString32 n = 'z' :: Hexa32.refDigits (-n).toNat)
+    ∧ (∀ m : Nat, ∀ c ∈ Hexa32.refDigits m, c ∈ Hexa32.digits.take 32)
+    ∧ (∀ m : Nat, 0 < m → ∃ c rest, Hexa32.refDigits m = c :: rest ∧ c ≠ '0') := by
+  refine ⟨fun h10 => ?_, fun hneg hmin => ?_, Hexa32.refDigits_alphabet, Hexa32.refDigits_head⟩
+  · rw [hexa_form_plus n h10, Hexa32.toStr_canonical n (by omega)]
+  · rw [hexa_form_minus n hneg hmin, Hexa32.toStr_canonical (-n) (by omega)]
+
+example : Hexa32.refDigits 32 = "10".toList ∧ Hexa32.refDigits 1024 = "100".toList := by decide +kernel
+
 example : Hexa32.toString32 (-743752992412427445) = "zkkincvom0p5l".toList := by decide +kernel
 example : i64 Hexa32.minInt64 ∧ i64 Hexa32.maxInt64 := by unfold i64; decide
 
